@@ -289,3 +289,6 @@ func cmdIngress(args []string) error {
 	_ = time.Second
 	return nil
 }
+
+// ---------------------------------------------------------------------------------------------
+// authentication sequences (C08, C09, C17 inbound): one config, a history of requests and reloads
